@@ -15,7 +15,7 @@ Positions == {"TYPE", "TYPE-regex", "Request", "Request-Body", "Request-regex", 
               "Headers-req", "Headers-resp", "Query", "Path", "Params", "Result", "ENUM",
               "RESP-first-of-two", "RESP-middle-of-three", "Request-headers-only"}
 Defects == {"none", "syntax", "example-vs-type", "example-vs-range", "undefined-type", "undefined-enum", "undefined-rule",
-            "invalid-regex", "not-an-object", "duplicate-key", "bad-allOf", "or-mismatch", "no-body"}
+            "invalid-regex", "unsatisfiable-regex", "regex-matching-empty", "not-an-object", "duplicate-key", "bad-allOf", "or-mismatch", "no-body"}
 
 DefectText == [d \in Defects |->
   CASE d = "none" -> "{\n  \"id\": 1\n}"
@@ -26,6 +26,8 @@ DefectText == [d \in Defects |->
     [] d = "undefined-enum" -> "{\n  \"id\": 1 // {enum: @nope}\n}"
     [] d = "undefined-rule" -> "{\n  \"id\": 1 // {foo: 1}\n}"
     [] d = "invalid-regex" -> "/(/"
+    [] d = "unsatisfiable-regex" -> "/[^\\x00-\\x{10FFFF}]/"      \* compiles, matches nothing: no example exists
+    [] d = "regex-matching-empty" -> "/a*/"                        \* legal; the example may be the empty string
     [] d = "not-an-object" -> "[1, 2]"
     [] d = "duplicate-key" -> "{\n  \"id\": 1,\n  \"id\": 2\n}"
     [] d = "bad-allOf" -> "{ // {allOf: \"@nope\"}\n  \"id\": 1\n}"
@@ -35,12 +37,12 @@ DefectText == [d \in Defects |->
 NoBodyPos == {"RESP-first-of-two", "RESP-middle-of-three", "Request-headers-only"}
 Applies(p, d) == IF p \in NoBodyPos THEN d = "no-body"            \* a response / request that only has Headers
                  ELSE IF d = "no-body" THEN FALSE
-                 ELSE IF p \in {"TYPE-regex", "Request-regex", "RESP-regex"} THEN d \in {"none", "invalid-regex"}
+                 ELSE IF p \in {"TYPE-regex", "Request-regex", "RESP-regex"} THEN d \in {"none", "invalid-regex", "unsatisfiable-regex", "regex-matching-empty"}
                  ELSE IF p = "ENUM" THEN d \in {"none", "syntax"}
-                 ELSE d # "invalid-regex"
+                 ELSE d \notin {"invalid-regex", "unsatisfiable-regex", "regex-matching-empty"}
 
 \* what the build has to reject so that marshalling cannot fail later
-MustReject(p, d) == d # "none" /\ ~(d = "not-an-object" /\ p \notin {"Headers-req", "Headers-resp", "Path"})
+MustReject(p, d) == d \notin {"none", "regex-matching-empty"} /\ ~(d = "not-an-object" /\ p \notin {"Headers-req", "Headers-resp", "Path"})
 
 VARIABLES pos, def
 Init == pos \in Positions /\ def \in Defects /\ Applies(pos, def)
@@ -48,7 +50,7 @@ Next == UNCHANGED <<pos, def>>
 Spec == Init /\ [][Next]_<<pos, def>>
 
 \* M: in the specified design an accepted cell is one the serialisers can handle
-AcceptedSerialisable == ~MustReject(pos, def) => def \in {"none", "not-an-object"}
+AcceptedSerialisable == ~MustReject(pos, def) => def \in {"none", "not-an-object", "regex-matching-empty"}
 
 EmitInv == PrintT("E " \o ToJson([pos |-> pos, def |-> def, text |-> DefectText[def], mustReject |-> MustReject(pos, def)]))
 =============================================================================
